@@ -66,6 +66,31 @@ add("C21", "ENUM", T_ENUM + " (reference walk with rvdec + effect equivalence un
 add("C25", "ENUM", T_ENUM + " (text collision search: equal text => equal lifted behaviour)",
     "Per mnemonic of rv32ima/rv64ima all register choices from a 4-register alphabet (thorough all 32), all 4096 I/S/B immediates, all shift amounts, all CSR numbers x uimm, aq/rl and fence bits, sampled (thorough all) U/J immediates: texts are grouped and any two words with the same text must have identical effects or no witness state on which they differ; mnemonic prefix and offset(base) format checked on each.",
     "A behavioural difference is only reported with a witness pre-state.", "DESIGN.md §3 C25")
+
+add("C03", "HIST", "step-by-step lock-step execution of every bounded program on the real pipeline (elf store -> parser -> deps -> emulator with Overlay(Bytes, Sparse)) against the reference RISC-V interpreter",
+    "Every RV64IMA program of <=3 (thorough 4) instructions over a 26-word alphabet chosen to collide (overlapping stores/loads of different widths, image reads, 32-bit then 64-bit register reads, AMO/LR/SC, forward/backward/indirect/pseudo jumps) x 3 initial states supplied through the state provider, run for <=8 steps; after every step pc, all known registers, all written or supplied bytes and the step's access report are compared with the reference; Step must fail exactly off-instruction. Known finding: registers first read at 4 bytes (see known_findings.json).",
+    "Trusted: harness/rvref, harness/ir. Register/memory values are 3 initial states, not all values. Self-modifying programs skipped.", "DESIGN.md §3 C03")
+add("C04", "HIST", "the C03 exploration with a request monitor on an instrumented state provider",
+    "Over the same program x initial-knowledge space (nothing known, registers pre-loaded, memory pre-loaded, image) every provider request is checked: only for never-known state, at most once per register and per byte; later reads observing the supplied values is decided by the lock-step comparison with the reference whose memory is image + provider bytes.",
+    "Runs stop at the first state mismatch.", "DESIGN.md §3 C04")
+add("C05", "HIST", "explicit-state search over all instruction orders reachable through accepted moves, each order executed on the real emulator and compared differentially with the original order",
+    "Every block of <=3 (thorough 4) instructions over a 15-word alphabet built around the dependency rules (+ optional real terminating jump): BFS over all orders reachable by accepted Block.Move calls; each order is run in the real emulator from 3 initial states until pc leaves the block and compared with the original order (registers, memory bytes, final pc, termination). Block moves on multi-block codes: addresses, text and single-step behaviour of every instruction unchanged.",
+    "Differential oracle on the real emulator; 3 initial states (aliasing / non-aliasing).", "DESIGN.md §3 C05")
+add("C06", "ENUM", T_ENUM + " (independent re-computation of instruction facts from the lifted effects)",
+    "Every ordered pair over a 40-word alphabet covering all instruction classes in 3x3 prefix/suffix contexts plus every adjacent pair of the C05 block space: when the pair satisfies the property's literal antecedent (decided by an own walker over riscv.Parse effects) both Move(i,i+1) and Move(i+1,i) must be accepted on a fresh real code.",
+    "Antecedent decided from the front end's effects and type flags.", "DESIGN.md §3 C06")
+add("C07", "HIST", "explicit-state breadth-first search to closure over move histories on the real deps.Code (fresh instance + replay + one operation), invariants checked in every state",
+    "All single-block codes of <=3 (thorough 4) instructions over a 14-word alphabet and 4 multi-block codes; menu: every Block.Move(i,j) and Code.Move(i,j) incl. out-of-range indices; admission iff valid and within the bounds reported before the move; rejected moves change nothing; accepted = rotation; per state: own bounds, contiguous addresses, lookups, dependency edges ordered, history independence of equal orders.",
+    "Dependency edges read via an add-only hook.", "DESIGN.md §3 C07")
+add("C08", "ENUM", T_ENUM + " (leader-based partition oracle)",
+    "deps.NewCode on all synthetic sequences of <=3 (thorough 4) instructions of 7 control-flow kinds with targets over every start / mid-instruction / gap / end / far address, all gap patterns, 3 length patterns, entry over the same alphabet, sorted and reversed, the empty sequence, and all real RISC-V sequences of <=4 words over a 9-word jump alphabet: failure iff entry or a constant real target is not an instruction start; otherwise the exact leader-based partition.",
+    "A constant target equal to the instruction's own end is not a jump (property's definition).", "DESIGN.md §3 C08")
+add("C20", "ENUM", T_ENUM + " (oracle computed from the generator's description, never by re-parsing)",
+    "All ELF64 files over the declared section / program-header alphabets (<=2, thorough 3 sections; <=2 program headers; 5 file types) written by the harness and loaded through the real elf package: REL/CORE/NONE and overlaps must be rejected; whatever loads must equal the description incl. Address lookups over the universe.",
+    "Errors are always acceptable (property allows them); well-formed containers only.", "DESIGN.md §3 C20")
+add("C26", "PROC", "exhaustive enumeration of generated input files / argument vectors, each run through the real binary as a process (and two pty sessions), classified by exit status and crash markers",
+    "~1800 (thorough ~4000) process runs of the real binary: RISC-V payload family x types x entries, every truncation and header-byte substitution of two seed files, huge sizes and top-of-address-space layouts, argument vectors, missing/dir/empty files: exit 1 with a 'mltwist: ' message or UI entered; never panic, fatal error, signal or timeout.",
+    "stdin=/dev/null runs end in the terminal-size error (regular error exit); 4 GiB address-space limit, 20 s timeout per run.", "DESIGN.md §3 C26")
 PENDING = {}
 def main():
     checks = []
